@@ -48,6 +48,7 @@ var (
 	ErrRWSetInvalid         = errors.New("RWSet of transaction invalid")
 	ErrACLNotEnough         = errors.New("ACL not enough")
 	ErrInvalidSignature     = errors.New("the signature is invalid or not match the address")
+	ErrRelyOnMarkedTx       = errors.New("tx relies on a marked tx and did not pass verification")
 
 	ErrGasNotEnough   = errors.New("Gas not enough")
 	ErrVersionInvalid = errors.New("Invalid tx version")
